@@ -355,6 +355,7 @@ pub fn families(kind: Kind, tier: Tier) -> Vec<Box<dyn Family>> {
             let small: Vec<Arc<P>> = q.l1.iter().take(60).cloned().collect();
             v.push(Box::new(BinaryWith { small, base: Box::new(core_quick()), stride: 97, offset: 405 + 3240 }));
             v.push(Box::new(level3_full()));
+            v.push(Box::new(level3_extra()));
             v.push(Box::new(level3_pairs(true)));
             v.push(Box::new(nested_loops(true)));
             v.push(Box::new(many_ranges()));
